@@ -234,14 +234,17 @@ class Message:
     def should_close(self):
         if self.must_close:
             return True
+        keepalive = False
         for (h, v) in self.headers:
             if h == "CONNECTION":
-                v = v.lower().strip(" \t")
-                if v == "close":
+                # Connection is a comma separated list of options
+                options = [o.strip(" \t") for o in v.lower().split(",")]
+                if "close" in options:
                     return True
-                elif v == "keep-alive":
-                    return False
-                break
+                if "keep-alive" in options:
+                    keepalive = True
+        if keepalive:
+            return False
         return self.version <= (1, 0)
 
 
